@@ -278,6 +278,16 @@ func runFmt(e *emitter, tier string, seed uint64, prop string) {
 				b = "ERR"
 			}
 			e.emit(src, "fmt", origin, hx(src), a, b)
+			// the command in its usual mode rewrites the file in place: afterwards the file holds the formatted text, no
+			// more and no less (a file is first given a longer text, as when lines were removed by formatting)
+			if err1 == nil && len(src)%7 == 0 {
+				if got, ok := fmtInPlace(src); ok {
+					e.emit("inplace "+src, "inplace", hx(f1), hx(got))
+				} else {
+					e.count("inplace-command-error")
+					e.emit("inplace "+src, "inplace", hx(f1), hx("COMMAND-ERROR: templ fmt <file> failed on a template that formats from stdin"))
+				}
+			}
 			// printer model: the real parser's tree of every template of x, and the text the real formatter wrote for its body
 			if err1 == nil && err2 == nil {
 				a0, ok0 := templateBodies(src)
@@ -398,4 +408,31 @@ func wsPerturb(r *rng, src string) string {
 		}
 	}
 	return b.String()
+}
+
+// fmtInPlace runs `templ fmt <file>` (the real command path, in-place mode) on a file that holds src followed - before
+// the run - by nothing else, and returns what the file holds afterwards.
+func fmtInPlace(src string) (string, bool) {
+	dir := workDir
+	if dir == "" {
+		dir = os.TempDir()
+	}
+	d, err := os.MkdirTemp(dir, "fmtfile")
+	if err != nil {
+		return "", false
+	}
+	defer os.RemoveAll(d)
+	file := filepath.Join(d, "x.templ")
+	if os.WriteFile(file, []byte(src), 0o644) != nil {
+		return "", false
+	}
+	var out bytes.Buffer
+	if err := fmtcmd.Run(quietLog, strings.NewReader(""), &out, fmtcmd.Arguments{Files: []string{file}, WorkerCount: 1}); err != nil {
+		return "", false
+	}
+	b, err := os.ReadFile(file)
+	if err != nil {
+		return "", false
+	}
+	return string(b), true
 }
